@@ -54,7 +54,7 @@ Lemma membership_false_same_ids P old new :
   fix_c11 P = true -> good_pool P -> valid_cfg P old = true -> valid_cfg P new = true ->
   membership_changed P old new = false -> forall c, In c (ids new) <-> In c (ids old).
 Proof.
-  intros Hf Hp Ho Hn Hm. apply (membership_fixed P old new Hf) in Hm as [_ Hs].
+  intros Hf Hp Ho Hn Hm. apply (membership_false_len_set P old new (or_intror Hf)) in Hm as [_ Hs].
   intros c. split; intros Hc.
   - eapply (same_names_same_ids P old new); eauto. intros n Hin. now apply Hs.
   - eapply (same_names_same_ids P new old); eauto. intros n Hin. now apply Hs.
